@@ -124,15 +124,27 @@ Definition counts (d : bdatum) : list N := map snd (b_buckets d).
 Definition bounds (d : bdatum) : list F := map (fun rc => r_max (fst rc)) (b_buckets d).
 Fixpoint sumN (l : list N) : N := match l with [] => 0 | x :: r => x + sumN r end.
 
-(* ---- datum.go GetBucketsCumByMax, listed in increasing order of the upper
-   bound; for a bucket list whose upper bounds are strictly increasing (what
-   make_ranges produces) that is the slice order ---- *)
+(* ---- datum.go GetBucketsCumByMax: the bucket counts are put in a map keyed by
+   the upper bound, the bounds are sorted (sort.Float64s) and the counts are
+   accumulated in THAT order, whatever the order of the slice.  Modelled for
+   buckets whose upper bounds are pairwise different and not NaN (with equal
+   bounds the Go maps merge entries in iteration order, which is unspecified):
+   a stable insertion sort by <= followed by a running sum. ---- *)
 Fixpoint cum_from (acc : N) (bs : list (range * N)) : list (F * N) :=
   match bs with
   | [] => []
   | (r, c) :: bs' => (r_max r, acc + c) :: cum_from (acc + c) bs'
   end.
-Definition cum_by_max (d : bdatum) : list (F * N) := cum_from 0 (b_buckets d).
+Fixpoint insert_bucket (x : range * N) (l : list (range * N)) : list (range * N) :=
+  match l with
+  | [] => [x]
+  | y :: r => if f_leb O (r_max (fst x)) (r_max (fst y)) then x :: l else y :: insert_bucket x r
+  end.
+Definition sort_buckets (l : list (range * N)) : list (range * N) := fold_right insert_bucket [] l.
+Definition cum_by_max (d : bdatum) : list (F * N) := cum_from 0 (sort_buckets (b_buckets d)).
+(* the running sum in slice order: equal to cum_by_max only when the slice is
+   already ascending (what compiled programs produce) *)
+Definition cum_in_slice_order (d : bdatum) : list (F * N) := cum_from 0 (b_buckets d).
 
 (* what a declaration and a sequence of observations export *)
 Definition declare_observe (bs : list F) (vs : list F) : option bdatum :=
